@@ -788,6 +788,43 @@ pub fn run_session(ctx: &mut Ctx, v: &J) {
             ctx.mismatch(&sp, v, "bytes-differ", json!({"step": i, "event": e, "want": ex["bytes"], "got": o["bytes"]}));
             return;
         }
+        if ex["protonly"].as_bool().unwrap_or(false) {
+            // C02 on a structure: only the protected slots (element 1, and element 2 of a five-element Sig_structure)
+            let last = |x: &J| -> Option<Vec<u8>> {
+                x["bytes"].get(0).or_else(|| x["cb"].as_array().and_then(|a| a.last())).and_then(|b| bytes_of(b).ok())
+            };
+            let slots = |b: &[u8]| -> Vec<J> {
+                let mut sl: &[u8] = b;
+                match coset::cbor::de::from_reader::<Value, _>(&mut sl) {
+                    Ok(Value::Array(a)) if a.len() >= 3 => {
+                        if a.len() == 5 {
+                            vec![jvalue(&a[1]), jvalue(&a[2])]
+                        } else {
+                            vec![jvalue(&a[1])]
+                        }
+                    }
+                    _ => vec![json!(hex(b))],
+                }
+            };
+            match (last(ex), last(&o)) {
+                (Some(we), Some(wo)) => {
+                    if slots(&we) != slots(&wo) {
+                        ctx.mismatch(&sp, v, "protected-slot-of-structure-differs", json!({"step": i, "event": e, "want": slots(&we), "got": slots(&wo)}));
+                        return;
+                    }
+                }
+                (None, None) => {}
+                _ => {
+                    ctx.mismatch(&sp, v, "structure-missing", json!({"step": i, "event": e}));
+                    return;
+                }
+            }
+            if !same(&ex["ret"], &o["ret"]) {
+                ctx.mismatch(&sp, v, "returned-result-differs", json!({"step": i, "event": e, "want": ex["ret"], "got": o["ret"]}));
+                return;
+            }
+            continue;
+        }
         if relcb {
             let (ea, oa) = (ex["cb"].as_array().cloned().unwrap_or_default(), o["cb"].as_array().cloned().unwrap_or_default());
             if ea.len() != oa.len() {
